@@ -36,6 +36,7 @@ const (
 	sigFinallyJump    = "completion-value|finally-left-by-nested-break-or-continue|value-of-try-block-kept"
 	sigNestedJump     = "completion-value|statement-list-left-by-nested-break-or-continue|value-before-the-jump-lost"
 	sigStrictEvalArgs = "strict-function|direct-eval|arguments-object-not-visible"
+	sigNestedEval     = "function-prologue|non-simple-parameters|direct-eval-inside-the-function|panic-or-corrupted-parameters"
 	sigDefaultParam   = "function-prologue|default-parameter-after-forward-reference-or-eval|supplied-argument-left-uninitialised"
 )
 
@@ -249,6 +250,28 @@ var recognisers = []recogniser{
 			return anyNode(n, func(m *irjs.Node) bool { return m.IsAtom("eval") || m.Is("evalstr") })
 		})
 	}},
+	{sigNestedEval, func(cp *irjs.Node, f *failure) bool {
+		if f.kind == "compile" {
+			return false
+		}
+		return anyNode(cp, func(n *irjs.Node) bool {
+			if !isFunctionNode(n) || bodyStart(n) < 0 {
+				return false
+			}
+			nonSimple := false
+			for _, k := range n.Kids {
+				if k.Is("params") {
+					for _, p := range k.Kids {
+						if !p.Atom {
+							nonSimple = true
+						}
+					}
+				}
+			}
+			// a direct eval anywhere inside the function (also in a nested function: it makes the enclosing scopes dynamic)
+			return nonSimple && anyNode(n, func(x *irjs.Node) bool { return x.Is("evalstr") || x.Is("call") && x.Kids[0].IsAtom("eval") })
+		})
+	}},
 	{sigParamSelfRef, func(cp *irjs.Node, f *failure) bool {
 		if f.kind == "panic" || f.kind == "compile" {
 			return false
@@ -301,8 +324,15 @@ func forwardRefParams(n *irjs.Node) bool {
 }
 
 func classify(cp *irjs.Node, f *failure) string {
-	if ruleOf(f.rewrite) == "R7evalstr" && strings.Contains(f.got, "THROW error:SyntaxError") && !strings.Contains(f.want, "SyntaxError") {
-		if r7Shape(cp2base(cp, f), f.rewrite) == "arrowe/parenthesised-body" {
+	if strings.Contains(f.rewrite, "R7evalstr") && strings.Contains(f.got, "SyntaxError") && !strings.Contains(f.want, "SyntaxError") {
+		// the text of an expression-bodied arrow function with a parenthesised body does not parse back
+		if anyNode(cp, func(n *irjs.Node) bool {
+			if !n.Is("evalstr") || !n.Kids[0].Is("arrowe") {
+				return false
+			}
+			b := n.Kids[0].Kids[1]
+			return !(b.Atom || b.Is("call") || b.Is(".") || b.Is("[]") || b.Is("arr") || b.Is("tpl") || b.Is("evalstr"))
+		}) {
 			return sigArrowToStr
 		}
 	}
